@@ -13,15 +13,24 @@ Semantics of the mutex (Go's writer preference, modelled, not verified):
   goroutine already holds a read lock (this is what makes a nested `RLock` deadlock-prone);
 * `lock` is two steps: *announce* (from then on new readers are refused; one writer at a time passes
   this point, like Go's inner writer mutex) and *acquire* once the active readers have drained;
-* `runlock` / `unlock` of a lock that is not held are stuck (Go aborts the process).
+* `runlock` / `unlock` of a lock that is not held are stuck (Go aborts the process);
+* `tryrlock` / `trylock` (`TryRLock` / `TryLock`) never wait: they acquire under exactly the condition under
+  which `rlock` / a `lock` that finds no reader would go through at once, and otherwise *fail* — the caller
+  takes its failure branch, which in the programs the extractor accepts is an immediate error return without
+  further operations: the thread ends *refused* (it has completed, but it has not been answered).
+
+How an acquisition is made — waiting (`RLock`, `Lock`) or not (`TryRLock`, `TryLock`) — is part of the
+extracted program: the kinds are different operations.
 
 Selector accesses: `readSel` evaluates the field `p.ipSelector` (the thread remembers the version it
 read), `swapSel` assigns it (version + 1), `select` calls `Select` on the selector last read and logs
-the version used.  One op = one atomic step; a schedule is a list of thread indices.
+the version used.  `gate` is a point where a harness holds a thread (no effect on lock or selector); it
+only occurs in the stand-in programs of the harness (a critical section kept open), never in extracted ones.
+One op = one atomic step; a schedule is a list of thread indices.
 -/
 namespace CJ.RW
 
-inductive Op | rlock | runlock | lock | unlock | readSel | swapSel | select
+inductive Op | rlock | runlock | lock | unlock | readSel | swapSel | select | tryrlock | trylock | gate
 deriving DecidableEq, Repr, Inhabited, Hashable
 
 /-- state of a thread with respect to the write lock -/
@@ -38,6 +47,8 @@ structure Thread where
   cur : Option Nat := none
   /-- versions used by the `Select` calls made so far -/
   seen : List (Option Nat) := []
+  /-- a `Try*` acquisition failed: the entry point returned an error instead of doing its work -/
+  refused : Bool := false
 deriving DecidableEq, Repr, Inhabited, Hashable
 
 structure St where
@@ -65,6 +76,15 @@ def stepThread (s : St) (t : Thread) : Option (Thread × Nat) :=
     if 0 < t.rd then some ({ t with rd := t.rd - 1, prog := p }, s.ver) else none
   | _, .lock :: p =>
     if writerActive s = false ∧ writerPending s = false then some ({ t with w := .waiting, prog := .lock :: p }, s.ver) else none
+  -- `TryRLock`: the read lock if `RLock` would not wait, otherwise the failure branch (error return)
+  | _, .tryrlock :: p =>
+    if writerActive s = false ∧ writerPending s = false then some ({ t with rd := t.rd + 1, prog := p }, s.ver)
+    else some ({ t with prog := [], refused := true }, s.ver)
+  -- `TryLock`: the write lock if nobody holds or awaits the lock in any mode, otherwise the failure branch
+  | _, .trylock :: p =>
+    if readersActive s = false ∧ writerActive s = false ∧ writerPending s = false then some ({ t with w := .held, prog := p }, s.ver)
+    else some ({ t with prog := [], refused := true }, s.ver)
+  | _, .gate :: p => some ({ t with prog := p }, s.ver)
   | .held, .unlock :: p => some ({ t with w := .none, prog := p }, s.ver)
   | .none, .unlock :: _ => none
   | _, .readSel :: p => some ({ t with cur := some s.ver, prog := p }, s.ver)
@@ -107,6 +127,11 @@ def flatFrom : Sec → List Op → Bool
   | .out, .rlock :: p => flatFrom .rd p
   | .out, .lock :: p => flatFrom .wr p
   | .out, .select :: p => flatFrom .out p
+  | .out, .tryrlock :: p => flatFrom .rd p
+  | .out, .trylock :: p => flatFrom .wr p
+  | .out, .gate :: p => flatFrom .out p
+  | .rd, .gate :: p => flatFrom .rd p
+  | .wr, .gate :: p => flatFrom .wr p
   | .rd, .runlock :: p => flatFrom .out p
   | .rd, .readSel :: p => flatFrom .rd p
   | .rd, .select :: p => flatFrom .rd p
@@ -154,7 +179,14 @@ def oneSection : List Op → Bool
   | _ :: p => oneSection p
 
 /-- a request never touches the write side -/
-def readerProg (p : List Op) : Bool := p.all fun o => o != .lock && o != .unlock && o != .swapSel
+def readerProg (p : List Op) : Bool := p.all fun o => o != .lock && o != .unlock && o != .swapSel && o != .trylock
+
+/-- *Waiting acquisitions only*: the program takes the lock through `RLock` / `Lock`, never through `TryRLock` /
+`TryLock`, so it has no failure branch in which the entry point gives up because the lock is busy. -/
+def blocking (p : List Op) : Bool := p.all fun o => o != .tryrlock && o != .trylock
+
+/-- some thread has been turned away by a failed `Try*` -/
+def anyRefused (s : St) : Bool := s.ths.any (·.refused)
 
 /-! ### extracted paths (`CJ/Gen/LockPrograms.lean`) and the plain mutex -/
 
@@ -186,6 +218,9 @@ def nestingsFrom (held : List Nat) : List (Nat × Op) → List (Nat × Nat)
   | [] => []
   | (l, .rlock) :: p => held.map (·, l) ++ nestingsFrom (l :: held) p
   | (l, .lock) :: p => held.map (·, l) ++ nestingsFrom (l :: held) p
+  -- a `Try*` that succeeded holds the lock from here on, but it has not waited for it while holding the others
+  | (l, .tryrlock) :: p => nestingsFrom (l :: held) p
+  | (l, .trylock) :: p => nestingsFrom (l :: held) p
   | (l, .runlock) :: p => nestingsFrom (held.erase l) p
   | (l, .unlock) :: p => nestingsFrom (held.erase l) p
   | _ :: p => nestingsFrom held p
@@ -223,13 +258,32 @@ def findDeadlock (progs : List (List Op)) : Option (List Nat) :=
   let s := init progs
   bfs (measure s + 1) [(s, [])] [s]
 
+/-- breadth-first search over all schedules for a state in which a thread has been refused -/
+def bfsRefusal (fuel : Nat) (frontier : List (St × List Nat)) (visited : List St) : Option (List Nat) :=
+  match fuel with
+  | 0 => none
+  | fuel + 1 =>
+    match frontier.find? (fun x => anyRefused x.1) with
+    | some (_, sched) => some sched.reverse
+    | none =>
+      let (next, vis) := frontier.foldl (fun (acc : List (St × List Nat) × List St) (x : St × List Nat) =>
+        (enabled x.1).foldl (fun (acc : List (St × List Nat) × List St) i =>
+          match step x.1 i with
+          | none => acc
+          | some s' => if acc.2.contains s' then acc else ((s', i :: x.2) :: acc.1, s' :: acc.2)) acc) ([], visited)
+      if next.isEmpty then none else bfsRefusal fuel next.reverse vis
+
+def findRefusal (progs : List (List Op)) : Option (List Nat) :=
+  let s := init progs
+  bfsRefusal (measure s + 1) [(s, [])] [s]
+
 /-! ### coarse-grained runs used by the correspondence check
 
 The harness controls real goroutines only at *gates* (inside `Select`) and by starting them; between
 two events everything that can run does run.  `settle` mirrors that: every thread that is not parked
 at a gate steps until it is blocked, finished or has just executed a `select` on the initial selector
 (version 0 is the harness's gate-controlled selector; the selectors installed by the real
-`ReloadSubnets` have no gate), then it parks. -/
+`ReloadSubnets` have no gate) or a `gate` of a stand-in program, then it parks. -/
 
 structure Coarse where
   s : St
@@ -239,9 +293,24 @@ structure Coarse where
   parked : List Nat := []
 deriving Repr
 
+def canRun (c : Coarse) (i : Nat) : Bool :=
+  c.started.contains i && !c.parked.contains i && (step c.s i).isSome
+
+def nextIs (c : Coarse) (i : Nat) (o : Op) : Bool :=
+  match c.s.ths[i]? with
+  | some t => t.prog.head? == some o
+  | none => false
+
+/-- The thread that runs next.  When several started threads can step they were all waiting for the same
+release, and Go's mutex decides between them: `RWMutex.Unlock` hands the lock to every reader blocked in
+`RLock` before it lets the next writer pass the announce point (so blocked readers go first), and the writers
+queued on the inner mutex are woken in the order in which they arrived (so the thread started earlier goes
+first).  The fine-grained semantics (`exec`) admits every order; this is the one the runtime takes. -/
 def runnable (c : Coarse) : Option Nat :=
-  (List.range c.s.ths.length).find? fun i =>
-    c.started.contains i && !c.parked.contains i && (step c.s i).isSome
+  let order := c.started.reverse
+  match order.find? (fun i => canRun c i && nextIs c i .rlock) with
+  | some i => some i
+  | none => order.find? (canRun c)
 
 def settle : Nat → Coarse → Coarse
   | 0, c => c
@@ -251,7 +320,7 @@ def settle : Nat → Coarse → Coarse
     | some i =>
       match c.s.ths[i]?, step c.s i with
       | some t, some s' =>
-        let parks := match t.prog with | .select :: _ => t.cur == some 0 | _ => false
+        let parks := match t.prog with | .select :: _ => t.cur == some 0 | .gate :: _ => true | _ => false
         settle fuel { c with s := s', parked := if parks then i :: c.parked else c.parked }
       | _, _ => c
 
@@ -297,6 +366,20 @@ def findCoarse : Nat → Coarse → List Ev → Option (List Ev)
       match applyEv c e with
       | none => none
       | some c' => findCoarse fuel c' (e :: acc)
+
+/-- depth-first search over event sequences for a state in which a thread has been refused; yields the events -/
+def findCoarseRefusal : Nat → Coarse → List Ev → Option (List Ev)
+  | 0, c, acc => if anyRefused c.s then some acc.reverse else none
+  | fuel + 1, c, acc =>
+    if anyRefused c.s then some acc.reverse
+    else (coarseEnabled c).firstM fun e =>
+      match applyEv c e with
+      | none => none
+      | some c' => findCoarseRefusal fuel c' (e :: acc)
+
+def findRefusalEvents (progs : List (List Op)) : Option (List Ev) :=
+  let s := init progs
+  findCoarseRefusal (measure s + 1) { s := s } []
 
 def findDeadlockEvents (progs : List (List Op)) : Option (List Ev) :=
   let s := init progs
